@@ -140,7 +140,7 @@ func touches(pts [][2]int, nq [2]int) bool {
 	return false
 }
 
-var curveNames = []string{"circle", "bigarc", "quarter", "quad", "cubic", "cubic-s", "ellipse", "mixed", "mixed-open", "cubic-2i-a", "cubic-2i-b", "cubic-2i-c"}
+var curveNames = []string{"circle", "bigarc", "quarter", "quad", "cubic", "cubic-s", "ellipse", "mixed", "mixed-open", "cubic-2i-a", "cubic-2i-b", "cubic-2i-c", "quad-over", "quad-under"}
 var curveClosed = map[string]bool{"circle": true, "ellipse": true, "mixed": true}
 
 // curveTol: the tolerance rule of spec/Dash.tla (TolOf): 0.1 unit, for cubics with two inflection points 1.25 % of the
@@ -148,7 +148,7 @@ var curveClosed = map[string]bool{"circle": true, "ellipse": true, "mixed": true
 func curveTol(subs []Sub) int {
 	t := 10
 	for _, s := range subs {
-		if strings.HasPrefix(s.Shape, "cubic-2i-") {
+		if strings.HasPrefix(s.Shape, "cubic-2i-") || s.Shape == "quad-over" || s.Shape == "quad-under" {
 			t = max(t, (5*s.L+3)/4)
 		}
 	}
